@@ -281,11 +281,19 @@ MUTANTS.update({
         ('possibility-uses-min', [(MODELS, """            if oper is oper.Possibility:
                 return maxceil(self.maxval, it, self.minval)""", """            if oper is oper.Possibility:
                 return minfloor(self.minval, it, self.maxval)""")], 'C08.R'),
-        ('finish-enforces-before-completing-frames', [(MODELS, """        self._complete_frames()
+        ('complete-frames-before-enforce', [(MODELS, """        # access restrictions can add a world (serial), do that before completing
         self.R.enforce()
-        self._finished = True""", """        self.R.enforce()
-        self._complete_frames()
-        self._finished = True""")], 'C08.R3'),
+        # ensure frames for each world
+        for w in self.R:
+            self.frames[w]
+""", """        # ensure frames for each world
+        for w in self.R:
+            self.frames[w]
+""")], 'C08.R3'),
+        ('finish-never-marks-finished', [(MODELS, """        self.R.enforce()
+        self._finished = True
+        return self""", """        self.R.enforce()
+        return self""")], 'C08.R3'),
         ('transitive-enforce-single-pass', [(MODELS, """            if not to_add:
                 break
             for _ in map(self.add, to_add): pass
@@ -482,6 +490,11 @@ class GlobalAccess""")], None),
 
 REFACTORS.update({
     'C08': [
+        ('finish-enforces-before-completing-frames', [(MODELS, """        self._complete_frames()
+        self.R.enforce()
+        self._finished = True""", """        self.R.enforce()
+        self._complete_frames()
+        self._finished = True""")]),
         ('mh-existential-equivalent', [(MH, """        if values.T in valset:
             return values.T
         if len(valset) > 1:
